@@ -238,6 +238,9 @@ def run(ctx):
             if c[0] == "cmp" and call_is(strip(c[2]), "len") and strip(strip(c[2])[2][0]) == other_caps and is_const(c[3], 0) \
                     and ((c[1] in (">", "!=") and not tr) or (c[1] in ("==", "<=") and tr)):
                 return True
+            # merging a response into itself: d.update(d) changes nothing
+            if c[0] == "cmp" and c[1] in ("is", "is not") and {strip(c[2]), strip(c[3])} == {("param", mp[0]), ("param", mp[1])} and (tr == (c[1] == "is")):
+                return True
             if c[0] == "cmp" and strip(c[2]) == other_caps and strip(c[3]) in (("dict", ()), ("call", ("ext", "dict"), (), ())) \
                     and ((c[1] == "!=" and not tr) or (c[1] == "==" and tr)):
                 return True
@@ -256,8 +259,16 @@ def run(ctx):
     for v, _path in outcomes:
         if v is None or strip(v) == ("attr", ("param", mp[0]), "_capabilities"):
             continue
+        def uncopied(x):
+            """dict(d) / d.copy() / {**d}: a snapshot of d holds the same items in the same order"""
+            x = strip(x)
+            if x[0] == "call" and x[1] == ("ext", "dict") and len(x[2]) == 1 and not x[3]:
+                return uncopied(x[2][0])
+            if x[0] == "call" and x[1][0] == "meth" and x[1][2] == "copy" and not x[2]:
+                return uncopied(x[1][1])
+            return x
         if v and v[0] == "mut" and v[1] == "update" and v[2] == ("attr", ("param", mp[0]), "_capabilities") \
-                and strip(v[3][0]) == ("attr", ("param", mp[1]), "_capabilities"):
+                and uncopied(v[3][0]) == ("attr", ("param", mp[1]), "_capabilities"):
             merged = True
         # the same as an explicit in-order copy loop / the dict union operators
         if v and strip(v)[0] == "bin" and strip(v)[1] == "|" and strip(strip(v)[2]) == ("attr", ("param", mp[0]), "_capabilities") \
@@ -279,7 +290,8 @@ def run(ctx):
            func=MERGE, file=m.module.rel, construct="self._capabilities.update(other._capabilities)",
            fail="merge() is not an in-order dict.update of the other response's capabilities into this one")
     ctx.count("paging")
-    g = ctx.fn(GETCAPS)
+    from ..helpers import delegate
+    g = delegate(prog, ctx.fn(GETCAPS))          # (the exchange itself, when get_capabilities only takes a lock around it)
     gs = summarize(prog, g)
     # locate the merge call, the second command and the update call through their terms
     merge_calls = []
